@@ -981,6 +981,39 @@ func TestVerifConc(t *testing.T) {
 
 // ---------------------------------------------------------------------------- free-running stress
 
+// a scoped service whose constructor takes its parameter object by pointer and keeps it
+type vkPIn struct {
+	In
+	C *vkC
+	D *vkD
+}
+type vkP struct {
+	in *vkPIn
+	c0 *vkC
+	d0 *vkD
+}
+
+// wiring under overlap: what a constructor receives belongs to the scope that is resolving it
+type vkE struct{ _ int }
+type vkF struct{ _ int }
+type vkNever struct{ _ int }
+type vkQIn struct {
+	In
+	E *vkE
+	F *vkF
+	O *vkNever `optional:"true"`
+}
+type vkQ struct {
+	e *vkE
+	f *vkF
+}
+type vkR struct {
+	sc  Scope
+	ctx context.Context
+	e   *vkE
+}
+type vkU struct{ n int64 }
+
 type vkStressScope struct {
 	s      Scope
 	cancel context.CancelFunc
@@ -1082,6 +1115,8 @@ func TestVerifConcStress(t *testing.T) {
 		bc := NewCollection()
 		bc.AddScoped(func() *vkC { return &vkC{} })
 		bc.AddScoped(func() *vkD { return &vkD{} })
+		bc.AddScoped(func(in *vkPIn) *vkP { return &vkP{in: in, c0: in.C, d0: in.D} })
+		var kept []*vkP
 		bprov, berr := bc.Build()
 		for burst := 0; berr == nil && burst < 300; burst++ {
 			sc, err := bprov.CreateScope(nil)
@@ -1099,8 +1134,29 @@ func TestVerifConcStress(t *testing.T) {
 					got[k][0], _ = sc.Get(typ)
 				}(k, typ)
 			}
+			// meanwhile the parameter objects that earlier scopes' services kept are read: they belong to those services
+			bw.Add(1)
+			go func() {
+				defer bw.Done()
+				<-start
+				for _, p := range kept {
+					if p.in == nil || p.in.C != p.c0 || p.in.D != p.d0 {
+						report(round, "C09,C04,C02", "the parameter object a scoped service received by pointer (and kept) was rewritten by a resolution in another scope")
+						break
+					}
+				}
+			}()
 			close(start)
 			bw.Wait()
+			if v, e := sc.Get(reflect.TypeOf((*vkP)(nil))); e == nil {
+				if p, ok := v.(*vkP); ok && p != nil {
+					if len(kept) < 64 {
+						kept = append(kept, p)
+					} else {
+						kept[burst%64] = p
+					}
+				}
+			}
 			got[0][1], _ = sc.Get(vkTypeD)
 			got[1][1], _ = sc.Get(vkTypeC)
 			for k := range got {
@@ -1113,6 +1169,82 @@ func TestVerifConcStress(t *testing.T) {
 		}
 		if berr == nil {
 			bprov.Close()
+		}
+		// wiring bursts (C04, C18, C03 under overlap): two scopes resolve, at the same moment, scoped services that take
+		// a parameter object by value, direct parameters (Scope, context, a scoped service), and nothing at all.
+		// Every constructor must have received its own scope's instances, its own scope and that scope's context;
+		// two resolutions of a transient are two constructor runs and two instances.
+		wc := NewCollection()
+		var uctr atomic.Int64
+		wc.AddScoped(func() *vkE { runtime.Gosched(); return &vkE{} })
+		wc.AddScoped(func() *vkF { runtime.Gosched(); return &vkF{} })
+		wc.AddScoped(func(in vkQIn) *vkQ { runtime.Gosched(); return &vkQ{e: in.E, f: in.F} })
+		wc.AddScoped(func(sc Scope, ctx context.Context, e *vkE) *vkR { return &vkR{sc: sc, ctx: ctx, e: e} })
+		wc.AddTransient(func() *vkU { n := uctr.Add(1); runtime.Gosched(); return &vkU{n: n} })
+		wprov, werr := wc.Build()
+		if werr != nil {
+			report(round, "C08", "wiring bursts: Build rejected a valid registration set: "+werr.Error())
+		}
+		for burst := 0; werr == nil && burst < 150; burst++ {
+			var scs [2]Scope
+			var e error
+			if scs[0], e = wprov.CreateScope(nil); e != nil {
+				break
+			}
+			if scs[1], e = wprov.CreateScope(nil); e != nil {
+				break
+			}
+			start := make(chan struct{})
+			var qs [2]*vkQ
+			var rs [2]*vkR
+			var us [2]*vkU
+			var bw sync.WaitGroup
+			run := func(f func()) {
+				bw.Add(1)
+				go func() { defer bw.Done(); <-start; f() }()
+			}
+			before := uctr.Load()
+			for k := 0; k < 2; k++ {
+				k := k
+				run(func() {
+					if v, e := scs[k].Get(reflect.TypeOf((*vkQ)(nil))); e == nil {
+						qs[k], _ = v.(*vkQ)
+					}
+				})
+				run(func() {
+					if v, e := scs[k].Get(reflect.TypeOf((*vkR)(nil))); e == nil {
+						rs[k], _ = v.(*vkR)
+					}
+				})
+				run(func() {
+					if v, e := scs[0].Get(reflect.TypeOf((*vkU)(nil))); e == nil {
+						us[k], _ = v.(*vkU)
+					}
+				})
+			}
+			close(start)
+			bw.Wait()
+			for k := 0; k < 2; k++ {
+				ev, _ := scs[k].Get(reflect.TypeOf((*vkE)(nil)))
+				fv, _ := scs[k].Get(reflect.TypeOf((*vkF)(nil)))
+				if q := qs[k]; q == nil || ev == nil || fv == nil || q.e != ev || q.f != fv {
+					report(round, "C09,C04,C02", fmt.Sprintf("two scopes resolved a scoped service with a by-value parameter object at the same moment: the constructor run for scope #%d did not receive that scope's instances (got %+v)", k, q))
+				}
+				if x := rs[k]; x == nil || x.sc != scs[k] || x.e != ev {
+					report(round, "C09,C18,C04", fmt.Sprintf("two scopes resolved a scoped service with direct parameters (Scope, context, scoped service) at the same moment: the constructor run for scope #%d received another scope or another scope's instance", k))
+				} else if fc, e := FromContext(x.ctx); e != nil || fc != scs[k] {
+					report(round, "C09,C18", fmt.Sprintf("two scopes resolved a scoped service at the same moment: the context injected for scope #%d does not lead back to that scope", k))
+				}
+			}
+			if us[0] == nil || us[1] == nil || us[0] == us[1] || uctr.Load() != before+2 {
+				report(round, "C09,C03", fmt.Sprintf("two resolutions of a transient that overlap inside its constructor: %d constructor runs, same instance=%v", uctr.Load()-before, us[0] == us[1]))
+			}
+			scs[0].Close()
+			scs[1].Close()
+			count("wiring_burst")
+		}
+		if werr == nil {
+			wprov.Close()
 		}
 		var wg sync.WaitGroup
 		for g := 0; g < G; g++ {
